@@ -267,7 +267,20 @@ def run_check(mod, argv=None):
     return report(mod, cases, verdicts, a.tier, a.seed, time.time() - t0)
 
 
+CHUNK = int(os.environ.get("VERIF_CHUNK", "2000"))
+
+
 def execute(mod, cases):
+    """run + judge; large case lists are processed in chunks so traces never pile up in memory"""
+    if hasattr(mod, "run_batch") or len(cases) <= CHUNK:
+        return execute_chunk(mod, cases)
+    verdicts = []
+    for i in range(0, len(cases), CHUNK):
+        verdicts += execute_chunk(mod, cases[i:i + CHUNK])
+    return verdicts
+
+
+def execute_chunk(mod, cases):
     # group scenarios by (driver, flavor) and run each group in one sharded batch
     flat = {}
     for ci, c in enumerate(cases):
